@@ -247,7 +247,9 @@ func c11Neighbourhood(chk *fw.Check) (evals, nontrivial int, samples []string) {
 	}
 	_ = others
 	two64 := new(big.Int).Lsh(big.NewInt(1), 64)
-	listed := []*big.Int{big.NewInt(5), big.NewInt(57), big.NewInt(300), new(big.Int).Add(two64, big.NewInt(5)), new(big.Int).Lsh(big.NewInt(0x7f), 152), big.NewInt(7)}
+	listed := []*big.Int{big.NewInt(5), big.NewInt(57), big.NewInt(300), new(big.Int).Add(two64, big.NewInt(5)), new(big.Int).Lsh(big.NewInt(0x7f), 152), big.NewInt(7),
+		// a negative serial number on the list (INTEGER 0xB3): the certificate with the same magnitude is another one
+		big.NewInt(-77)}
 	isListed := func(s *big.Int) bool {
 		for _, l := range listed {
 			if l.Cmp(s) == 0 {
@@ -264,6 +266,7 @@ func c11Neighbourhood(chk *fw.Check) (evals, nontrivial int, samples []string) {
 	}
 	for _, s := range listed {
 		add(s)
+		add(new(big.Int).Abs(s))
 		add(new(big.Int).Add(s, big.NewInt(1)))
 		add(new(big.Int).Sub(s, big.NewInt(1)))
 		add(new(big.Int).Mul(s, big.NewInt(256)))
